@@ -235,7 +235,11 @@ where
         let mut this = self.project();
 
         match this.inner.as_mut().project() {
-            CheckoutConnectingProj::ConnectingWithDelayDrop(connector) if connector.is_some() => {
+            // Only a connection attempt which is actually in progress continues in the
+            // background: a connector which never started is simply dropped.
+            CheckoutConnectingProj::ConnectingWithDelayDrop(connector)
+                if connector.as_ref().is_some_and(|c| c.is_started()) =>
+            {
                 tracing::trace!("converting checkout to delayed drop");
                 Some(Checkout {
                     token: *this.token,
